@@ -43,10 +43,15 @@ type scenario struct {
 	amt    string // 1 | mid | all | all+1 | -
 	pre    string // base | wd-other | no-rewards
 	dirty  string // none | signer | withdrawer
+	post   string // "" | payout-all: after the leaf / child the root sends its whole balance to an EOA
 }
 
 func (s scenario) String() string {
-	return fmt.Sprintf("topo=%s v0=%d v1=%d %s(%s,%s) pre=%s dirty=%s", s.topo, s.v0, s.v1, s.method, s.named, s.amt, s.pre, s.dirty)
+	out := fmt.Sprintf("topo=%s v0=%d v1=%d %s(%s,%s) pre=%s dirty=%s", s.topo, s.v0, s.v1, s.method, s.named, s.amt, s.pre, s.dirty)
+	if s.post != "" {
+		out += " post=" + s.post
+	}
+	return out
 }
 
 func scenarios(tier string) []scenario {
@@ -63,6 +68,8 @@ func scenarios(tier string) []scenario {
 		{"distribution.claimRewards", []string{"-"}, []string{"signer", "caller"}},
 		{"distribution.setWithdrawAddress", []string{"-"}, []string{"signer"}},
 		{"ics20.transfer", []string{"1", "mid", "all", "all+1"}, []string{"signer", "caller"}},
+		{"staking.redelegate", []string{"1", "mid"}, []string{"signer", "caller"}},
+		{"staking.cancelUnbondingDelegation", []string{"1", "mid"}, []string{"signer", "caller"}},
 	}
 	pres := []string{"base", "wd-other", "no-rewards"}
 	dirties := []string{"none", "signer", "withdrawer"}
@@ -93,6 +100,13 @@ func scenarios(tier string) []scenario {
 								// the calling contract is itself a delegator with pending rewards
 								prs = []string{"contract-rewards"}
 							}
+							if mm.name == "staking.redelegate" || mm.name == "staking.cancelUnbondingDelegation" {
+								// no pending rewards (their payout as a side effect is the known finding RC2)
+								prs = []string{"no-rewards"}
+								if named == "caller" {
+									prs = []string{"contract-stake"}
+								}
+							}
 							for _, pre := range prs {
 								for _, d := range dirties {
 									if topo == "direct" && d != "none" {
@@ -101,7 +115,13 @@ func scenarios(tier string) []scenario {
 									if d != "none" && v0 == 0 {
 										continue // the dirtying send needs funds in the root frame
 									}
-									out = append(out, scenario{topo, v0, v1, mm.name, named, a, pre, d})
+									out = append(out, scenario{topo, v0, v1, mm.name, named, a, pre, d, ""})
+									// the root pays out everything it holds after the precompile call: its balance
+									// ends at exactly zero after having been written to the bank in between
+									// (only for the methods that are free of the known findings RC1 / RC2 in this pre-state)
+									if topo != "direct" && v0 > 0 && (pre == "no-rewards" || pre == "contract-stake") && mm.name != "staking.delegate" && mm.name != "ics20.transfer" {
+										out = append(out, scenario{topo, v0, v1, mm.name, named, a, pre, d, "payout-all"})
+									}
 								}
 							}
 						}
@@ -142,6 +162,17 @@ func (r *runner) applyPre(pre string) {
 	case "no-rewards":
 		if _, err := w.RunMsg(ctx, distrtypes.NewMsgWithdrawDelegatorReward(S, w.ValAddr[0])); err != nil {
 			panic(err)
+		}
+	case "contract-stake":
+		// the contracts hold stake of their own, delegated in this block (no rewards yet)
+		for id := 0; id < 2; id++ {
+			c := sdk.AccAddress(world.ContractAddr(byte(0x10 + id)).Bytes())
+			if err := w.App.BankKeeper.SendCoins(ctx, S, c, sdk.NewCoins(sdk.NewCoin(world.Denom, e17(10)))); err != nil {
+				panic(err)
+			}
+			if _, err := w.RunMsg(ctx, stakingtypes.NewMsgDelegate(c, w.ValAddr[0], sdk.NewCoin(world.Denom, e17(10)))); err != nil {
+				panic(err)
+			}
 		}
 	}
 }
@@ -211,6 +242,18 @@ func (r *runner) build(sc scenario) (root *calltree.Frame, leaf *calltree.Leaf, 
 	case "staking.undelegate":
 		leaf = &calltree.Leaf{Name: sc.method, To: precomp.StakingAddr, Data: precomp.MustPack(st, "undelegate", named, v1.String(), amt)}
 		msgs = []sdk.Msg{&stakingtypes.MsgUndelegate{DelegatorAddress: namedAcc.String(), ValidatorAddress: v1.String(), Amount: sdk.Coin{Denom: world.Denom, Amount: sdkmath.NewIntFromBigInt(amt)}}}
+	case "staking.redelegate":
+		v2 := w.ValAddr[1]
+		leaf = &calltree.Leaf{Name: sc.method, To: precomp.StakingAddr, Data: precomp.MustPack(st, "redelegate", named, v1.String(), v2.String(), amt)}
+		msgs = []sdk.Msg{&stakingtypes.MsgBeginRedelegate{DelegatorAddress: namedAcc.String(), ValidatorSrcAddress: v1.String(), ValidatorDstAddress: v2.String(), Amount: sdk.Coin{Denom: world.Denom, Amount: sdkmath.NewIntFromBigInt(amt)}}}
+	case "staking.cancelUnbondingDelegation":
+		// the named account has an unbonding entry of this block
+		if _, err := w.RunMsg(ctx, &stakingtypes.MsgUndelegate{DelegatorAddress: namedAcc.String(), ValidatorAddress: v1.String(), Amount: sdk.NewInt64Coin(world.Denom, 500)}); err != nil {
+			panic(err)
+		}
+		h := w.Header.Height
+		leaf = &calltree.Leaf{Name: sc.method, To: precomp.StakingAddr, Data: precomp.MustPack(st, "cancelUnbondingDelegation", named, v1.String(), amt, big.NewInt(h))}
+		msgs = []sdk.Msg{&stakingtypes.MsgCancelUnbondingDelegation{DelegatorAddress: namedAcc.String(), ValidatorAddress: v1.String(), Amount: sdk.Coin{Denom: world.Denom, Amount: sdkmath.NewIntFromBigInt(amt)}, CreationHeight: h}}
 	case "distribution.withdrawDelegatorRewards":
 		leaf = &calltree.Leaf{Name: sc.method, To: precomp.DistrAddr, Data: precomp.MustPack(di, "withdrawDelegatorRewards", named, v1.String())}
 		msgs = []sdk.Msg{distrtypes.NewMsgWithdrawDelegatorReward(namedAcc, v1)}
@@ -252,6 +295,10 @@ func (r *runner) build(sc scenario) (root *calltree.Frame, leaf *calltree.Leaf, 
 		} else {
 			root.Items = append(root.Items, calltree.Item{Leaf: leaf})
 		}
+		if sc.post == "payout-all" {
+			t := w.Eth[f.T]
+			root.Items = append(root.Items, calltree.Item{EOA: &t, All: true})
+		}
 	}
 	native = func() (bool, error) {
 		ctx := w.Ctx()
@@ -278,6 +325,14 @@ func (r *runner) build(sc scenario) (root *calltree.Frame, leaf *calltree.Leaf, 
 			if _, err := w.RunMsg(ctx, m); err != nil {
 				ok = false
 				lastErr = err
+			}
+		}
+		if root != nil && sc.post == "payout-all" {
+			rAcc := sdk.AccAddress(root.Addr().Bytes())
+			if all := w.App.BankKeeper.GetBalance(ctx, rAcc, world.Denom); all.IsPositive() {
+				if err := w.App.BankKeeper.SendCoins(ctx, rAcc, w.Addrs[f.T], sdk.NewCoins(all)); err != nil {
+					panic(fmt.Sprintf("native replay of the payout failed: %v", err))
+				}
 			}
 		}
 		return ok, lastErr
@@ -341,9 +396,13 @@ func Worker(shard, n int, tier string) *engine.Result {
 		okA := resp.Code == 0
 		if root != nil {
 			holder := root
-			idx := len(root.Items) - 1
+			last := len(root.Items) - 1
+			if sc.post != "" {
+				last--
+			}
+			idx := last
 			if sc.topo == "two" {
-				holder = root.Items[len(root.Items)-1].Child
+				holder = root.Items[last].Child
 				idx = 0
 			}
 			okA = okA && w.Slot(ctx, holder.Addr(), uint64(calltree.SlotFlag+idx)).Sign() != 0
@@ -383,10 +442,17 @@ func Worker(shard, n int, tier string) *engine.Result {
 		if sc.pre == "contract-rewards" {
 			rewards = "pending-on-caller"
 		}
+		if sc.pre == "contract-stake" {
+			rewards = "none-caller-staked"
+		}
 		sig := func(effect string) string {
 			// the journal-dirty set and the nesting depth are in the detail, not in the signature: they
 			// select WHICH stale cached balance gets written back, not a different defect
-			return fmt.Sprintf("C02|method=%s|caller=%s|named=%s|wd=%s|rewards=%s|effect=%s", sc.method, caller, sc.named, wd, rewards, effect)
+			out := fmt.Sprintf("C02|method=%s|caller=%s|named=%s|wd=%s|rewards=%s|effect=%s", sc.method, caller, sc.named, wd, rewards, effect)
+			if sc.post != "" {
+				out += "|post=" + sc.post
+			}
+			return out
 		}
 		if resp.Code != 0 {
 			res.Outcomes["tx-failed"]++
@@ -451,9 +517,13 @@ func Worker(shard, n int, tier string) *engine.Result {
 		respP := w.Deliver(bzP)
 		okP := respP.Code == 0
 		if rootP != nil {
-			holderP, idxP := rootP, len(rootP.Items)-1
+			lastP := len(rootP.Items) - 1
+			if sc.post != "" {
+				lastP--
+			}
+			holderP, idxP := rootP, lastP
 			if sc.topo == "two" {
-				holderP, idxP = rootP.Items[len(rootP.Items)-1].Child, 0
+				holderP, idxP = rootP.Items[lastP].Child, 0
 			}
 			okP = okP && w.Slot(w.Ctx(), holderP.Addr(), uint64(calltree.SlotFlag+idxP)).Sign() != 0
 		} else if tr, err := decode(respP.Data); err == nil && tr {
